@@ -54,3 +54,5 @@ e('number-end-early-kind', WD, [('        let kind = if is_ordinal {\n          
                                  '        let kind = match is_ordinal {\n            true => MatchKind::Ordinal,\n            false => MatchKind::Cardinal,\n        };', 1)])
 e('replace-loop-explicit', WD, [('        for Occurence {\n            start, end, text, ..\n        } in self.matches.into_iter().rev()\n        {\n            let repr: T = Replace::replace(tokens.drain(start..end), text);\n            tokens.insert(start, repr);\n        }',
                                  '        for occ in self.matches.into_iter().rev() {\n            let Occurence { start, end, text, .. } = occ;\n            let repr: T = Replace::replace(tokens.drain(start..end), text);\n            tokens.insert(start, repr);\n        }', 1)])
+# only UN and UN_SIX are ever stored in the flags: testing DEUX instead of TROIS refuses exactly the same inputs
+e('fr-trois-tests-deux', FR, [('"trois" | "troisième" if !blocked.contains(Excludable::TROIS)', '"trois" | "troisième" if !blocked.contains(Excludable::DEUX)', 1)])
